@@ -27,6 +27,20 @@ pub fn exec_raw<F: Family + 'static>(it: &mut Interp<F>, w: usize, name: &str, a
             rows.sort();
             Some(format!("ok n={} rows={} drops=@", rows.len(), rows.join(",")))
         }
+        // parq <views> <filter> <threads> <mode> <epoch|->
+        ("parq", 5) => {
+            let f = F::par_queries().iter().find(|q| q.0 == args[0] && q.1 == args[1])?.2;
+            let threads: usize = args[2].parse().ok()?;
+            let mode: u8 = args[3].parse().ok()?;
+            let write: Option<u64> = args[4].parse().ok();
+            let out = no_lib(|| f(world, threads, mode, write));
+            for e in out.hint_errors.iter() {
+                ledger_error(format!("oracle=par views={} filter={} {}", args[0], args[1], e));
+            }
+            let mut rows = out.rows;
+            rows.sort();
+            Some(format!("ok n={} rows={} drops=@", rows.len(), rows.join(",")))
+        }
         ("entryq", 3) => {
             let id = parse_id(&args[0])?;
             let f = F::entryqs().iter().find(|q| q.0 == args[1] && q.1 == args[2])?.2;
